@@ -519,7 +519,7 @@ def named_length_cases(rng, n):
     out = []
     for i in range(n):
         h = rng.randrange(1, 4)
-        form = rng.choice(["literal", "derived", "sum", "sizeof"])
+        form = rng.choice(["literal", "derived", "sum", "sizeof", "sizeof_named", "sizeof_named_struct"])
         decls = ["const HALF: usize = %d;" % h]
         if form == "literal":
             size = h
@@ -530,6 +530,16 @@ def named_length_cases(rng, n):
         elif form == "sum":
             size = h + 1
             decls.append("const SIZE: usize = HALF + 1;")
+        elif form == "sizeof_named":
+            # size-of of an array type whose length is a named constant, inside a constant's initialiser
+            size = 2 * h
+            decls.append("const SIZE: usize = |:[HALF]u16|;")
+        elif form == "sizeof_named_struct":
+            # ... and of a structure holding an array of structures with a named length
+            size = 8 * h
+            decls.append("struct Cell\n{\n\ta: i32,\n\tb: i32,\n}")
+            decls.append("struct Grid\n{\n\tcells: [HALF]Cell,\n}")
+            decls.append("const SIZE: usize = |:Grid|;")
         else:
             size = 4 * h
             decls.append("struct Pack\n{\n\tdata: [HALF]i32,\n}")
